@@ -467,6 +467,9 @@ var nUnexpected int
 
 func enough() bool { return nUnexpected >= 40 }
 
+// >0: State.MaxDepth for the inputs of runBoth (the prelude always runs under the default)
+var depthLimit int
+
 type sessionResult struct {
 	on, off []SessObs
 }
@@ -479,6 +482,9 @@ func runBoth(c *Ctx, inputs []string, gap string, gapAt int) sessionResult {
 		x := NewSess(mode == 1, maxDepthC05)
 		x.Opts.MaxDuration = 3 * time.Second // generated programs end in milliseconds; a hang is reported as an error outcome
 		x.Run(prelude, 0)
+		if depthLimit > 0 {
+			x.S.MaxDepth = depthLimit // the inputs run under a small recursion limit (depth-limit dimension)
+		}
 		for _, in := range inputs {
 			o := x.Run(in, 0)
 			c.Eval()
@@ -499,6 +505,9 @@ func runBoth(c *Ctx, inputs []string, gap string, gapAt int) sessionResult {
 			construct = gap
 		} else {
 			nUnexpected++
+			if depthLimit > 0 {
+				construct = "unexpected-under-depth-limit"
+			}
 		}
 		var sig string
 		if a.Class() != b.Class() {
@@ -528,13 +537,20 @@ func encodeCase(inputs []string) string {
 	for _, in := range inputs {
 		hs = append(hs, Hx([]byte(in)))
 	}
+	if depthLimit > 0 {
+		return fmt.Sprintf("SRC@%d %s", depthLimit, strings.Join(hs, ","))
+	}
 	return "SRC " + strings.Join(hs, ",")
 }
 
 func decodeCase(cs string) []string {
 	f := strings.Fields(cs)
-	if len(f) != 2 || f[0] != "SRC" {
+	if len(f) != 2 || !strings.HasPrefix(f[0], "SRC") {
 		return nil
+	}
+	depthLimit = 0
+	if _, d, ok := strings.Cut(f[0], "@"); ok {
+		fmt.Sscan(d, &depthLimit)
 	}
 	var out []string
 	for _, h := range strings.Split(f[1], ",") {
@@ -1105,6 +1121,48 @@ func runC05(c *Ctx) {
 			ins = append(ins, skInput{src: strings.Join(parts, "; "), skel: skelStmts(top), sig: sigStmts(top, 0, "")})
 		}
 		skeletonSession(c, ins)
+	}
+	// 3b. depth-limit dimension: the same programs under every small MaxDepth, registers on vs off: value vs
+	// max-depth panic (and everything else) must agree - a register operand costs the depth an identifier costs
+	depthCorpus := [][]string{
+		{`func f(n, m){ if n>=m {return n}; f(n+1, m) }; f(0,5)`},
+		{`x=0; for i=3 {for j=3 {x = x + i*j}}; x`},
+		{`func g(a,b){a*b+(a-b)*(a+b)}; for i=4 {println(g(i,i+1))}`},
+		{`func h(n){if n<=0 {return 0}; n+h(n-1)}; h(3)`},
+	}
+	nDepth := 120
+	if c.Thorough() {
+		nDepth = 1500
+	}
+	dn := 0
+	for i := 0; i < len(depthCorpus)+nDepth && !enough(); i++ {
+		var ins []string
+		if i < len(depthCorpus) {
+			ins = depthCorpus[i]
+		} else {
+			g := &vgen{r: c.R, nfn: &dn}
+			switch i % 3 {
+			case 0:
+				ins = []string{g.input()}
+			case 1:
+				// a recursion whose deepest point is a comparison / arithmetic over bare parameters
+				dn++
+				f := fmt.Sprintf("rc%d", dn)
+				ps := []string{f + "n", f + "m"}
+				ins = []string{fmt.Sprintf("func %s(%s,%s){ if %s>=%s {return %s}; %s(%s+1, %s) }; %s(0,%d)", f, ps[0], ps[1], ps[0], ps[1],
+					g.intExpr(ps, 1+c.R.Intn(2)), f, ps[0], ps[1], f, 1+c.R.Intn(6))}
+			default:
+				// nested counted loops accumulating an expression over the loop variables
+				lv := []string{"dvi", "dvj"}
+				ins = []string{fmt.Sprintf("dx=0; for dvi=%d {for dvj=%d {dx = dx + %s}}; dx", 1+c.R.Intn(3), 1+c.R.Intn(3), g.intExpr(lv, 1+c.R.Intn(2)))}
+			}
+		}
+		for d := 1; d <= 30; d++ {
+			depthLimit = d
+			res := runBoth(c, ins, "", -1)
+			c.Count("depth-limit-outcome=" + res.on[0].Class())
+		}
+		depthLimit = 0
 	}
 	// 4. value programs: direct oracle only
 	vn := 0
